@@ -133,7 +133,7 @@ pub fn run(rec: &mut Recorder, cases: &str, thorough: bool, seed: u64) -> (u64, 
     let (mut n, mut nu) = (0u64, 0u64);
     for (ei, e) in exprs.iter().enumerate() {
         let d = depth(e);
-        let per = if d <= 2 { claims.len() } else if thorough { 60 } else { 16 };
+        let per = if d <= 1 || (thorough && d <= 2) { claims.len() } else if d <= 2 { 220 } else if thorough { 60 } else { 16 };
         for k in 0..per {
             let ci = if per == claims.len() { k } else { rng.below(claims.len()) };
             let c = &claims[ci];
@@ -156,6 +156,62 @@ pub fn run(rec: &mut Recorder, cases: &str, thorough: bool, seed: u64) -> (u64, 
                 }
             }
         }
+    }
+    // ---- the claims builder and the validators that read the system clock
+    let lattice = |cfg: usize, t: jiff::Timestamp| -> Value {
+        let (bs, bn, l) = TIME_CFGS[cfg];
+        let rel: i128 = t.as_nanosecond() - ((bs as i128) * 1_000_000_000 + bn as i128);
+        let l = l as i128;
+        let c = (rel + l / 2).div_euclid(l);
+        json!([c as i64, (rel - c * l) as i64])
+    };
+    let opt_t = |cfg: usize, t: Option<jiff::Timestamp>| t.map(|t| json!([lattice(cfg, t)])).unwrap_or(json!([]));
+    let opt_s = |s: &Option<String>| s.as_ref().map(|s| json!([s])).unwrap_or(json!([]));
+    let setter_seqs: Vec<Vec<(&str, &str)>> = vec![vec![], vec![("iss", "a")], vec![("sub", "ab"), ("aud", "")], vec![("jti", "t"), ("iss", "b"), ("iss", "a")],
+                                                  vec![("aud", "a"), ("sub", "a"), ("jti", ""), ("iss", "ab")]];
+    let near: Vec<(i64, i64)> = vec![(-2, -1), (-1, 0), (0, -1), (0, 0), (0, 1), (1, 0), (1, 1), (2, 0)];
+    for cfg in 0..TIME_CFGS.len() {
+        for &(c0, f0) in &near {
+            for k in 0..3i64 {
+                let now = ts(cfg, &json!([c0, f0]));
+                let d = Duration::from_nanos(TIME_CFGS[cfg].2 * k as u64);
+                for (si, setters) in setter_seqs.iter().enumerate() {
+                    let mut cl = RegisteredClaims::new(now, d);
+                    for (f, v) in setters {
+                        cl = match *f {
+                            "iss" => cl.from_issuer(v.to_string()),
+                            "sub" => cl.for_subject(v.to_string()),
+                            "aud" => cl.for_audience(v.to_string()),
+                            _ => cl.with_token_id(v.to_string()),
+                        };
+                    }
+                    // validity of the fresh claims at a few instants around the window
+                    let (tc, tf) = near[(si + k as usize + cfg) % near.len()];
+                    let t = ts(cfg, &json!([tc + c0, tf]));
+                    let valid = Time::valid_at(t).validate(&cl).is_ok();
+                    let got = json!({"exp": opt_t(cfg, cl.exp), "nbf": opt_t(cfg, cl.nbf), "iat": opt_t(cfg, cl.iat), "iss": opt_s(&cl.iss), "sub": opt_s(&cl.sub),
+                                     "aud": opt_s(&cl.aud), "jti": opt_s(&cl.jti)});
+                    let sj: Vec<Value> = setters.iter().map(|(f, v)| json!([f, v])).collect();
+                    rec.emit(json!({"fn":"builder","cfg":cfg,"now":[c0, f0],"k":k,"setters":sj,"got":got,"t":[tc + c0, tf],"valid_at":valid}));
+                    n += 1;
+                }
+            }
+        }
+    }
+    {
+        let hour = Duration::from_secs(3600);
+        let now = jiff::Timestamp::now();
+        let with = |exp: Option<jiff::Timestamp>, nbf: Option<jiff::Timestamp>| RegisteredClaims { iss: None, sub: None, aud: None, exp, nbf, iat: None, jti: None };
+        let v = Time::valid_now();
+        let fresh = RegisteredClaims::now(hour);
+        rec.emit(json!({"fn":"clock",
+            "future_exp_accepted": v.validate(&with(Some(now + hour), None)).is_ok(),
+            "past_exp_accepted": Time::valid_now().validate(&with(Some(now - hour), None)).is_ok(),
+            "past_nbf_accepted": Time::valid_now().validate(&with(None, Some(now - hour))).is_ok(),
+            "future_nbf_accepted": Time::valid_now().validate(&with(None, Some(now + hour))).is_ok(),
+            "now_claims_valid_now": Time::valid_now().validate(&fresh).is_ok() && fresh.iat.map(|t| (t.as_second() - now.as_second()).abs() < 600).unwrap_or(false)
+                && fresh.exp.zip(fresh.iat).map(|(e, i)| e.as_nanosecond() - i.as_nanosecond() == 3_600_000_000_000).unwrap_or(false)}));
+        n += 1;
     }
     (n, nu)
 }
